@@ -60,12 +60,15 @@ def run_case(rng, idx, tier, lane, ctx):
     if lane == "pinned":
         return S.pinned_k02(gridded=True)
     spec = GE.gen_events(rng, limits="default", time_dep=rng.random() < 0.5)
+    grow_k = S.maybe_grown(rng, spec, 0.1)     # built for the first k states, evaluated, then extended (states via state_list, processes via add_*)
     theta = GE.param_values(rng, spec)
     x0 = GE.initial_state(rng, spec, hi=20)
     ref, V = S.numeric_V(spec, theta)
     nE = V.shape[1]
     tot, _r = S.total_rate(ref, x0, 0.0, theta)
     cls = G.classes(spec)
+    if grow_k:
+        cls.append("grown-model")
     counters = {"exact_runs": 0, "tau_runs": 0, "rows_checked": 0, "intervals_checked": 0, "empty_paths": 0,
                 "grids_past_extinction": 0, "on_grid_point": 0}
     # sometimes start from a state where nothing can fire
@@ -90,7 +93,7 @@ def run_case(rng, idx, tier, lane, ctx):
     nontriv = False
     configs = []
     try:
-        m = S.build_sim(spec, theta, x0)
+        m = S.build_sim(spec, theta, x0, grown=(rng, grow_k) if grow_k else None)
     except Exception as e:
         return {"status": "violated", "sample": spec, "counters": counters,
                 "witnesses": [{"what": "model construction raised", "error": short_exc(e), "tb": tb_tail(e)}]}
